@@ -85,7 +85,9 @@ MYTH_CTX_CALLBACK void myth_block_on_queue_cb(void *arg1,void *arg2,void *arg3) 
 /* block the current thread on sleep_queue q */
 static inline void myth_block_on_queue(myth_sleep_queue_t * q,
 				       myth_mutex_t * m) {
+  int init_ = myth_ensure_init(); /* may be the first use of the library */
   myth_running_env_t env = myth_get_current_env();
+  (void)init_;
   myth_thread_t cur = env->this_thread;
   /* pop next thread to run */
   myth_thread_t next = myth_queue_pop(&env->runnable_q);
@@ -135,7 +137,9 @@ MYTH_CTX_CALLBACK void myth_block_on_stack_cb(void *arg1,void *arg2,void *arg3) 
 /* block the current thread on sleep_queue q */
 static inline void myth_block_on_stack(myth_sleep_stack_t * s,
 				       myth_mutex_t * m) {
+  int init_ = myth_ensure_init(); /* may be the first use of the library */
   myth_running_env_t env = myth_get_current_env();
+  (void)init_;
   myth_thread_t cur = env->this_thread;
   /* pop next thread to run */
   myth_thread_t next = myth_queue_pop(&env->runnable_q);
@@ -177,7 +181,9 @@ static inline void empty_loop(uint64_t dt) {
 static inline int myth_wake_one_from_queue(myth_sleep_queue_t * q,
 					   callback_on_wakeup_t callback,
 					   void * arg) {
+  int init_ = myth_ensure_init(); /* may be the first use of the library */
   myth_running_env_t env = myth_get_current_env();
+  (void)init_;
   /* wait until the queue becomes non-empty.
      necessary for example when lock/unlock
      are called almost at the same time on 
@@ -256,7 +262,9 @@ static inline int myth_wake_many_from_queue(myth_sleep_queue_t * q,
      alternatively, we could (i) dequeue all threads without
      waking them up and (ii) putting them in the run queue.
   */
+  int init_ = myth_ensure_init(); /* may be the first use of the library */
   myth_running_env_t env = myth_get_current_env();
+  (void)init_;
   /* wait until the queue becomes non-empty.
      necessary for example when lock/unlock
      are called almost at the same time on 
@@ -313,7 +321,9 @@ static inline int myth_wake_many_from_queue(myth_sleep_queue_t * q,
 static inline int myth_wake_if_any_from_queue(myth_sleep_queue_t * q,
 					      callback_on_wakeup_t callback,
 					      void * arg) {
+  int init_ = myth_ensure_init(); /* may be the first use of the library */
   myth_running_env_t env = myth_get_current_env();
+  (void)init_;
   MYTH_VERIF_POINT("wakeany.deq", q, 0);
   myth_thread_t to_wake = myth_sleep_queue_deq_th(q);
   /* no threads sleeping, done */
@@ -375,7 +385,9 @@ static inline int myth_wake_many_from_stack(myth_sleep_stack_t * s,
      alternatively, we could (i) dequeue all threads without
      waking them up and (ii) putting them in the run queue.
   */
+  int init_ = myth_ensure_init(); /* may be the first use of the library */
   myth_running_env_t env = myth_get_current_env();
+  (void)init_;
   /* wait until the queue becomes non-empty.
      necessary for example when lock/unlock
      are called almost at the same time on 
@@ -1108,7 +1120,9 @@ void myth_uncond_wait_cb(void *arg1,void *arg2,void *arg3) {
 }
 
 static inline int myth_uncond_wait_body(myth_uncond_t * u) {
+  int init_ = myth_ensure_init(); /* may be the first use of the library */
   myth_running_env_t env = myth_get_current_env();
+  (void)init_;
   myth_thread_t cur = env->this_thread;
   /* pop next thread to run */
   myth_thread_t next = myth_queue_pop(&env->runnable_q);
@@ -1132,7 +1146,9 @@ static inline int myth_uncond_wait_body(myth_uncond_t * u) {
 }
 
 static inline int myth_uncond_signal_body(myth_uncond_t * u) {
+  int init_ = myth_ensure_init(); /* may be the first use of the library */
   myth_running_env_t env = myth_get_current_env();
+  (void)init_;
   MYTH_VERIF_POINT("uncond.sig.read", u, 0);
   myth_thread_t to_wake = u->th;
   while (!to_wake) {
